@@ -12,7 +12,9 @@ TileOk(e) == e.out = e.in
 RtOk(e) == /\ e.dlon <= 1000 /\ e.dlat <= 1000           \* 1e-9 degree = 1000 units of 1e-12 degree
            /\ e.dx <= 1000 /\ e.dy <= 1000                \* 1 mm = 1000 micrometres
 AnchorOk(e) == e.got = e.want
-Ok(e) == CASE e.k = "map" -> MapOk(e) [] e.k = "tile" -> TileOk(e) [] e.k = "rt" -> RtOk(e) [] e.k = "anchor" -> AnchorOk(e) [] OTHER -> FALSE
+\* sizes: a part of thousands of vertices - every vertex projected in its place, one call per vertex
+BigOk(e) == e.ok = 1 /\ e.calls = e.n
+Ok(e) == CASE e.k = "map" -> MapOk(e) [] e.k = "mapbig" -> BigOk(e) [] e.k = "tile" -> TileOk(e) [] e.k = "rt" -> RtOk(e) [] e.k = "anchor" -> AnchorOk(e) [] OTHER -> FALSE
 Init == l = 1 /\ bad = {}
 Next == /\ l <= Len(Trace) /\ l' = l + 1
         /\ bad' = IF Ok(Trace[l]) THEN bad ELSE bad \cup {l}
